@@ -10,6 +10,7 @@ import json, random, sys
 def main():
     job = json.load(open(sys.argv[1]))
     from harness import embed, proj as P, api
+    import BTrees.check as BC
     fam, impl = job['fam'], job['impl']
     emb = embed.Embedding(fam, job.get('emb', 'mid'))
     BT, BU, TS, SE = embed.classes(fam, impl)
@@ -56,10 +57,33 @@ def main():
                     elif op == 'bool':
                         res = ['v', 1 if t else 0]
                     elif op in ('ior', 'isub', 'iand', 'ixor', 'update'):
-                        ks = sorted(set(rng.randint(1, nk) for _ in range(rng.randint(0, 4))))
-                        arg = [emb.key(x) for x in ks]
-                        if rng.random() < 0.5:
+                        # the operand: any iterable of keys - unsorted, with repeated members, one-shot, one of the
+                        # package's own containers, or the container itself (s op= s); recorded as the set it denotes
+                        raw = [rng.randint(1, nk) for _ in range(rng.randint(0, 5))]
+                        w = rng.random()
+                        if w < 0.12:
+                            # repeats chosen so that the number of members with repetition equals len(t)
+                            cur = [emb.rk(x) for x in t.keys()]
+                            if len(cur) >= 2:
+                                raw = (cur[:-1] + [cur[0]])
+                                rng.shuffle(raw)
+                        ks = sorted(set(raw))
+                        arg = [emb.key(x) for x in raw]
+                        if w < 0.12:
+                            pass
+                        elif w < 0.22:
+                            arg = t
+                            ks = [emb.rk(x) for x in t.keys()]
+                        elif w < 0.4:
                             arg = SE(arg)
+                        elif w < 0.5:
+                            arg = TS(arg)
+                        elif w < 0.6:
+                            arg = tuple(arg)
+                        elif w < 0.7:
+                            arg = iter(arg)
+                        elif w < 0.8 and fam[0] != 'O':
+                            arg = set(arg)
                         if op == 'ior':
                             t |= arg
                         elif op == 'isub':
@@ -156,6 +180,7 @@ def main():
                                     ctx=[tno, step]))
                 try:
                     t._check()
+                    BC.check(t)
                 except Exception as e:
                     structs[-1]['checkfail'] = repr(e)
         traces.append(tr)
